@@ -25,7 +25,8 @@ RULE = ("(route table, request, handler outcome) triples on a real Bromelia with
 
 CMDS = [316, 318, 272, 265, 258, 274, 275, 301, 303, 324, 8388620]
 OUTCOMES = ["answer", "answer", "none", "str", "request", "generic-message", "int", "raise-ValueError", "raise-KeyError",
-            "raise-RuntimeError", "raise-custom"]
+            "raise-RuntimeError", "raise-custom", "raise-noargs-RuntimeError", "raise-noargs-KeyError", "raise-noargs-StopIteration",
+            "raise-noargs-AssertionError", "raise-twoargs-OSError"]
 
 
 @st.composite
@@ -100,6 +101,16 @@ def run_one(case):
                 raise RuntimeError("boom")
             if outcome == "raise-custom":
                 raise _Custom("boom")
+            if outcome == "raise-noargs-RuntimeError":
+                raise RuntimeError
+            if outcome == "raise-noargs-KeyError":
+                raise KeyError()
+            if outcome == "raise-noargs-StopIteration":
+                return next(iter(()))
+            if outcome == "raise-noargs-AssertionError":
+                assert False
+            if outcome == "raise-twoargs-OSError":
+                raise OSError(5, "boom")
             raise AssertionError(outcome)
         handler.__name__ = f"handler_{key[0]}_{key[1]}"
         return handler
@@ -180,6 +191,8 @@ def run_one(case):
 
 
 def run_case(case):
+    if case.get("kind") == "concurrent":
+        return run_concurrent(case)
     return run_one(case)
 
 
@@ -213,12 +226,127 @@ def _collect(shard, seed, n):
 
 def main(ctx):
     col = common.run_shards(_collect, 8 if ctx.quick else 16, ctx.seed, n=200 if ctx.quick else 4000)
+    col.merge(common.run_shards(_collect_conc, 8 if ctx.quick else 16, ctx.seed, n=40 if ctx.quick else 800))
     for path, rec in common.load_replays(PID):
         col.record(rec["case"], run_case(rec["case"]), nontrivial=True, classes=["replay"])
     ctx.required_classes = ["shared-command-code", "request-on-shared-code", "unregistered", "outcome=none", "outcome=raise", "outcome=str",
-                            "outcome=request", "outcome=generic", "form=decoded", "apps=3"]
+                            "outcome=request", "outcome=generic", "form=decoded", "apps=3", "concurrent-dispatch"]
     ctx.assumptions = ["in-process Worker objects with a fake multiprocessing manager; the hand-over is observed at the worker's send queue",
                        "handlers raise only standard Exception subclasses; requests carry Session-Id, Origin-Host and Origin-Realm",
                        "unregistered pairs: only 'no handler runs and nothing is sent' is asserted (documented behaviour)"]
     ctx.shrinker = lambda sig, case: common.hyp_shrink(cases(), lambda c: any(v.sig == sig for v in run_one(c)), ctx.seed, n=800, budget_s=40) or case
+    return col
+
+
+# ---------------------------------------------------------------------------------------------------------------------
+# concurrent dispatch: the application layer runs one thread per incoming request (create_message_thread); a request
+# that arrives while another handler is still running must not disturb the first one's answer
+@st.composite
+def concurrent_cases(draw):
+    from .. import conc
+    n = draw(st.sampled_from([2, 2, 3]))
+    gates = [draw(st.sampled_from([0, 0, n, n - 1])) for _ in range(n)]
+    if all(g == 0 for g in gates):
+        gates[0] = n
+    outcomes = [draw(st.sampled_from(["answer", "answer", "answer", "none", "raise"])) for _ in range(n)]
+    return {"kind": "concurrent", "n": n, "gates": gates, "outcomes": outcomes, "sched": draw(conc.schedules(150)),
+            "hbh": draw(st.lists(st.sampled_from([1, 2, 3, 0x01020304, 0x01020305, 2**32 - 1]), min_size=n, max_size=n, unique=True))}
+
+
+def run_concurrent(case):
+    import struct
+    common.bootstrap()
+    refdict.all_classes()
+    from ..dsched import Scheduler, Net, Patch
+    from .c14 import ShimManager, Recorder
+    from bromelia.base import DiameterRequest, DiameterAnswer
+    from bromelia.exceptions import BromeliaException
+    C = refdict.cls_obj
+    n = case["n"]
+    sched = Scheduler(choices=None, line_preempt=False, trace_prefix=common.REPO.rstrip("/") + "/bromelia/", max_steps=200000)
+    net = Net(sched)
+    vs = []
+    with Patch(sched, net):
+        sched.register_driver()
+        try:
+            app, workers = inproc.make_app(["s6a"], manager=ShimManager(sched))
+            app_id = struct.pack(">I", 16777251)
+            worker = workers[app_id]
+            rec = Recorder(worker.app.config)
+            worker.app = rec
+            entered = []
+            reqs = []
+            for i in range(n):
+                r = DiameterRequest(command_code=316, application_id=16777251,
+                                    avps=[C("SessionIdAVP")(f"peer;{i};{i}".encode()), C("OriginHostAVP")(f"peer{i}.example"),
+                                          C("OriginRealmAVP")("peer.realm")])
+                r.header.hop_by_hop = case["hbh"][i]
+                r.header.end_to_end = 7000 + i
+                reqs.append(r)
+
+            @app.route(application_id=app_id, command_code=(316).to_bytes(3, "big"))
+            def handler(request):
+                i = next(j for j, r in enumerate(reqs) if r is request)
+                entered.append(i)
+                gate = case["gates"][i]
+                if gate:
+                    # stay inside the handler until `gate` requests have entered theirs (bounded: 2 virtual seconds)
+                    sched.point("handler.gate", pred=lambda: len(entered) >= gate, timeout=2.0)
+                if case["outcomes"][i] == "none":
+                    return None
+                if case["outcomes"][i] == "raise":
+                    raise ValueError("boom")
+                return DiameterAnswer(command_code=316, application_id=16777251,
+                                      avps=[C("SessionIdAVP")(b"placeholder"), C("ResultCodeAVP")(2001 + i),
+                                            C("OriginHostAVP")("local"), C("OriginRealmAVP")("realm")])
+
+            sched.spawn(worker.send_handler, "send_handler")
+            sched.choices = list(case["sched"])
+            sched.choice_i = 0
+            threads = []
+
+            def dispatcher():
+                for r in reqs:
+                    threads.append(app.create_message_thread(r))
+            sched.spawn(dispatcher, "dispatcher")
+            r_ = sched.run_until(lambda: len(threads) == n and all(not t.is_alive() for t in threads) and len(rec.sent) >= n or sched.overrun, 15.0)
+            sched.run_until(lambda: False, 0.3)
+            sent = [rc.dec_stream(m.dump())[0] for m in rec.sent]
+            for i, r in enumerate(reqs):
+                mine = [m for m in sent if m["hbh"] == case["hbh"][i]]
+                if len(mine) != 1:
+                    vs.append(V("exactly one answer is sent per request, also when requests are handled concurrently",
+                                f"concurrent/answers-for-request={len(mine)}", f"request {i} (hbh {case['hbh'][i]:#x}): {len(mine)} answers; all sent hbh {[m['hbh'] for m in sent]}; run={r_}"))
+                    continue
+                a = mine[0]
+                sid = rc.find_avp(a["avps"], 263)
+                res = rc.find_avp(a["avps"], 268)
+                want_rc = 2001 + i if case["outcomes"][i] == "answer" else 5012
+                if a["e2e"] != 7000 + i or len(sid) != 1 or sid[0]["data"] != f"peer;{i};{i}".encode():
+                    vs.append(V("the answer carries its own request's identifiers and Session-Id", "concurrent/identity-mixed-up",
+                                f"request {i}: e2e {a['e2e']}, Session-Id {[s['data'] for s in sid]}"))
+                if len(res) != 1 or int.from_bytes(res[0]["data"], "big") != want_rc:
+                    vs.append(V("each request is answered with the answer its own handler invocation produced", "concurrent/wrong-answer-content",
+                                f"request {i}: Result-Code {[int.from_bytes(x['data'], 'big') for x in res]}, expected {want_rc}"))
+            if len(sent) != n and not vs:
+                vs.append(V("exactly one answer is sent per request", f"concurrent/total={len(sent)}", f"{n} requests"))
+        finally:
+            unreaped = sched.kill_all()
+    if unreaped:
+        raise RuntimeError(f"harness could not reap threads: {unreaped}")
+    seen, out = set(), []
+    for v in vs:
+        if v.sig not in seen:
+            seen.add(v.sig)
+            out.append(v)
+    return out
+
+
+def _collect_conc(shard, seed, n):
+    col = Collector(PID, RULE)
+
+    def body(case):
+        col.record(case, run_concurrent(case), nontrivial=True, classes=["concurrent-dispatch", f"concurrent-n={case['n']}"])
+
+    common.hyp_collect(concurrent_cases(), body, n, seed)
     return col
